@@ -42,6 +42,7 @@ def run(ctx):
     c19_supports(ctx)
     c01_mempool.run(ctx, rule="C19.3")
     c19_4(ctx)
+    c19_4_framing(ctx)
     # the lineage / puzzle-hash gates compare against hashes recomputed by curry_and_treehash from the values actually curried
     # into the puzzle (mod hash, launcher id and launcher puzzle hash of the decoded singleton struct): shared with C17.4
     from . import c17
@@ -274,3 +275,22 @@ def c19_4(ctx):
         def dd(t, lab):
             return "BitAnd" in str(apnf.N(t)) and ".flags" in str(apnf.N(t)) and lab[0] == "bool"
         ctx.ob(R, "owned-fingerprint-gated", len(U.edges_where(ob, dd)) == 2, "the owned summary exposes the fingerprint only for dedup-eligible spends")
+
+
+def c19_4_framing(ctx):
+    """fingerprint injectivity rests on every argument atom contributing a frame `len as u32 (big endian) || bytes`: in the
+    loop of hash_atom_list no iteration returns to the element fetch without both updates (an omitted frame for e.g. the empty
+    atom lets an argument slot vanish, so different condition lists regroup to the same byte stream), and the two updates hash
+    the length of the very atom whose bytes follow."""
+    R = "C19.4"
+    b = U.body(ctx, R, CC + "puzzle_fingerprint::hash_atom_list")
+    if not b:
+        return
+    ups = [(bi, [str(apnf.N(strip_all(b.operand_term(a)))) for a in t["args"]]) for bi, n, t in b.calls() if U.flat(n).endswith("Sha256::update") and b.in_cycle(bi)]
+    atom = "('Allocator::atom', ('.0', ('Allocator::next', 'var:args')))"
+    ok = len(ups) == 2 and ups[0][1][1] == "('to_be_bytes', ('as u32', ('len', %s)))" % atom and ups[1][1][1] == atom and b.dominates(ups[0][0], ups[1][0])
+    ctx.ob(R, "frame:len-then-bytes", ok, "each argument atom is hashed as (len as u32).to_be_bytes() followed by its bytes", found=[u[1][1][:100] for u in ups], where=b.fn.sp)
+    if len(ups) == 2:
+        for k, (bi, _) in enumerate(ups):
+            U.loop_no_skip(ctx, R, b, "frame:every-atom#%d" % k, [bi], "every argument atom (including the empty atom) contributes its frame",
+                           header_pred=lambda f: f.endswith("Allocator::next"))
